@@ -397,6 +397,31 @@ def run(rep, tier, rng):
             if out[0] != "reject":
                 fail("make_header:invalid-%s:%s" % (label, "accepted" if out[0] == "ok" else "wrong-exception"), "make_header%r -> %r" % (case[1:], out[:1] if out[0] == "ok" else out), case)
 
+    # ---------- C'. the constructors themselves refuse invalid arguments with the header error (exception CLASS checked) ----------
+    non_numeric = ["1O2", "abc", "10.2", "1e2", "0x66", "v102", "--1", "1 02", "one", "١٠٢x", "1__0", "_1"]
+    for t in non_numeric:
+        for case, label in ((("ctor1", t, None, None, None, None, None, None, None, None), "v1:non-numeric-version"),
+                            (("ctor1", 102, t, None, None, None, None, None, None, None), "v1:non-numeric-ofxheader"),
+                            (("ctor2", t, None, None, None, None), "v2:non-numeric-version"),
+                            (("ctor2", 200, t, None, None, None), "v2:non-numeric-ofxheader")):
+            cases.append(case)
+            out = run_impl(H, case)
+            if out[0] != "reject":
+                fail("ctor:%s:%s" % (label, "accepted" if out[0] == "ok" else "wrong-exception"), "%s(%s) -> %r" % ("OFXHeaderV1" if case[0] == "ctor1" else "OFXHeaderV2", ", ".join(repr(x) for x in case[1:3]), out[:2]), case)
+    bad_ctor = [(("ctor1", 1000, None, None, None, None, None, None, None, None), "v1:version-over-long"), (("ctor1", "99999", None, None, None, None, None, None, None, None), "v1:version-over-long"),
+                (("ctor1", 102, 200, None, None, None, None, None, None, None), "v1:ofxheader"), (("ctor1", 102, None, "OFXXML", None, None, None, None, None, None), "v1:data"),
+                (("ctor1", 102, None, None, "TYPE2", None, None, None, None, None), "v1:security"), (("ctor1", 102, None, None, None, "LATIN1", None, None, None, None), "v1:encoding"),
+                (("ctor1", 102, None, None, None, None, "UTF-8", None, None, None), "v1:charset"), (("ctor1", 102, None, None, None, None, None, "GZIP", None, None), "v1:compression"),
+                (("ctor1", 102, None, None, None, None, None, None, "x" * 37, None), "v1:uid-over-long"), (("ctor1", 102, None, None, None, None, None, None, None, "y" * 37), "v1:uid-over-long"),
+                (("ctor2", 204, None, None, None, None), "v2:version-unsupported"), (("ctor2", "102", None, None, None, None), "v2:version-unsupported"),
+                (("ctor2", 200, 100, None, None, None), "v2:ofxheader"), (("ctor2", 200, None, "TYPE2", None, None), "v2:security"),
+                (("ctor2", 200, None, None, "x" * 37, None), "v2:uid-over-long"), (("ctor2", 200, None, None, None, "y" * 40), "v2:uid-over-long")]
+    for case, label in bad_ctor:
+        cases.append(case)
+        out = run_impl(H, case)
+        if out[0] != "reject":
+            fail("ctor:%s:%s" % (label, "accepted" if out[0] == "ok" else "wrong-exception"), "%s%r -> %r" % ("OFXHeaderV1" if case[0] == "ctor1" else "OFXHeaderV2", tuple(x for x in case[1:]), out[:2]), case)
+
     # ---------- D. constructors called directly, valid and invalid arguments mixed (model vs implementation) ----------
     def pick(valid, junk):
         r = rng.random()
@@ -420,6 +445,7 @@ def run(rep, tier, rng):
     if deep:
         cases += deep_token_strings(rng, 30000 if thorough else 6000)
     rep.extra["regex_patterns_are_the_transcribed_ones"] = pinned_ok()
+    rep.extra["source_problems"] = source_problems()
     rep.extra["deep_setting"] = deep
 
     rep.rule = ("structured stream: make_header for every version 100-199 and the seven 2xx versions x security levels x UIDs over [A-Za-z0-9_-]{1,36}, its str parsed back by "
@@ -433,6 +459,11 @@ def pinned_ok():
     from .. import translate_header as T
     d = T.read_header_module()
     return all(same for _, same in d["patterns"].values())
+
+
+def source_problems():
+    from .. import translate_header as T
+    return T.read_header_module()["source_problems"]
 
 
 MUT_CHARS = [":", " ", "\n", "\r", "\t", "-", "_", "0", "9", "A", "z", "X", "\"", "'", "=", "?", "<", ">", ".", "&", "\x0b", "\x1c", "\x85", "\xa0", "é", "٣", "²", "Ⅷ", " ", "�", "漢"]
